@@ -30,6 +30,13 @@ package multiterm
 //@ ghost term_dirty(row) bool
 //@ smt
 //@ (declare-fun wl_out (Str Bool Int) Str)   ; what WriteLineNoWrap emits for (text, AutoTrim, columns)
+//@ ; Escape-aware width of a rune array (the rule of color.StrLen): ESC (27) opens a colour
+//@ ; sequence, 'm' (109) closes it. in_esc(R,k): position k lies inside an open sequence;
+//@ ; rvis(R,k): number of visible runes among the first k.
+//@ (define-fun-rec in_esc ((rr (Array Int Int)) (k Int)) Bool
+//@   (ite (<= k 0) false (ite (in_esc rr (- k 1)) (not (= (select rr (- k 1)) 109)) (= (select rr (- k 1)) 27))))
+//@ (define-fun-rec rvis ((rr (Array Int Int)) (k Int)) Int
+//@   (ite (<= k 0) 0 (+ (rvis rr (- k 1)) (ite (or (in_esc rr (- k 1)) (= (select rr (- k 1)) 27)) 0 1))))
 //@ end
 
 // The meaning of the five control sequences (assumed: this is the VT100 contract).
@@ -72,8 +79,17 @@ package multiterm
 //@   modifies ghost term_line(term_row(0)), ghost term_dirty(term_row(0)), ghost term_col0(0), ghost w_calls(out)
 //@   ensures w_calls(out) == old(w_calls(out)) + 1
 //@   ensures [assumed-terminal-meaning] old(term_col0(0)) ==> term_line(term_row(0)) == wl_out(s, AutoTrim, computedCols) && term_dirty(term_row(0))
-//@   loop 1 invariant 0 <= i && i <= len(runes) && 0 <= visibleRunes && w_calls(out) == old(w_calls(out))
-//@   loop 2 invariant 0 <= i && i < len(runes) && 0 <= visibleRunes && w_calls(out) == old(w_calls(out))
+//@   loop 1 invariant 0 <= i && i <= len(runes) && 0 <= visibleRunes && w_calls(out) == old(w_calls(out)) && off(runes) == 0
+//@   loop 1 invariant [width] visibleRunes == rvis(arr(runes), i) && (computedCols >= 0 ==> visibleRunes <= computedCols)
+//@   loop 1 invariant [escape] i < len(runes) ==> !in_esc(arr(runes), i)
+//@   loop 2 invariant 0 <= i && i < len(runes) && 0 <= visibleRunes && w_calls(out) == old(w_calls(out)) && off(runes) == 0
+//@   loop 2 invariant visibleRunes == rvis(arr(runes), i) && visibleRunes < computedCols
+//@   loop 2 invariant (runes[i] == 27 && !in_esc(arr(runes), i)) || in_esc(arr(runes), i)
+// C20: the emitted prefix runes[:i] has at most computedCols visible runes and does not end
+// inside a colour escape sequence (unless the text itself ends inside one)
+//@   assert at "out.Write([]byte(string(runes[:i])))" : computedCols >= 0 ==> rvis(arr(runes), i) <= computedCols
+//@   assert at "out.Write([]byte(string(runes[:i])))" : i < len(runes) ==> !in_esc(arr(runes), i)
+//@   assert at "out.Write([]byte(string(runes[:i])))" : computedCols >= 0 && i < len(runes) ==> rvis(arr(runes), i) == computedCols
 
 //@ pred tw(s) := 0 <= s.cursor && s.cursor <= s.maxLine && s.maxLine <= 1000000000 && s.cursor == term_row(0) && s.cursorHidden == term_hidden(0)
 
